@@ -234,6 +234,25 @@ impl<'a, R> Drop for DepthGuard<'a, R> {
     }
 }
 
+// The length of the prefix of `json` whose `String::from_utf8_lossy` repr is `n` bytes long.
+fn lossy_consumed(json: &[u8], n: usize) -> usize {
+    let (mut consumed, mut repaired) = (0, 0);
+    for chunk in json.utf8_chunks() {
+        let valid = chunk.valid().len();
+        if repaired + valid >= n {
+            return consumed + (n - repaired);
+        }
+        repaired += valid;
+        consumed += valid;
+        if !chunk.invalid().is_empty() {
+            // replaced by U+FFFD
+            repaired += 3;
+            consumed += chunk.invalid().len();
+        }
+    }
+    consumed
+}
+
 fn visit_number<'de, V>(num: &ParserNumber, visitor: V) -> Result<V::Value>
 where
     V: de::Visitor<'de>,
@@ -378,7 +397,10 @@ impl<'de, R: Reader<'de>> Deserializer<R> {
             let n = if cfg.utf8_lossy && self.parser.read.next_invalid_utf8() != usize::MAX {
                 // repr the invalid utf8, not need to care about the invalid UTF8 char in non-string
                 // parts, it will cause errors when parsing.
-                val.parse_with_padding(String::from_utf8_lossy(json).as_bytes(), cfg)?
+                let repaired = String::from_utf8_lossy(json);
+                let n = val.parse_with_padding(repaired.as_bytes(), cfg)?;
+                // `n` counts bytes of the repaired copy, map it back to the input
+                lossy_consumed(json, n)
             } else {
                 val.parse_with_padding(json, cfg)?
             };
